@@ -33,7 +33,12 @@ CONSTANTS Peers,        \* peer ids
           Kv,           \* {} or {key-value store id}
           Changes,      \* changes an object can contain beyond its root
           MaxPend,      \* bound of the headUpdater queue (bounds the model only)
-          Budget        \* [cr, ed, de, fl, rs |-> Nat]: creations, edits, deleted ids, offline flips, restarts
+          Budget,       \* [cr, ed, de, fl, rs |-> Nat]: creations, edits, deleted ids, offline flips, restarts
+          Dev           \* deviations switched on (sensitivity runs only; {} = what the code does):
+                        \*   "NoExistsCheck"  UpdateHeads does not consult the deletion state
+                        \*   "NoFilter"       applyDiff does not filter the new ids by the deletion state
+                        \*   "NoRemovedPush"  applyDiff drops the ids that only the local index has
+                        \*   "NoObserver"     a changed entry is not always announced to the headUpdater
 
 Ids     == Trees \cup Acl \cup Kv
 Special == Acl \cup Kv
@@ -65,7 +70,8 @@ Fill(p)     == [i \in Ids |-> ViewE(store[p][i], i)]
 
 Upd(i, e) == [id |-> i, hd |-> e.hd, del |-> e.del]
 \* HeadStorage.UpdateEntry notifies the observers only when the entry was modified
-Enq(pd, p, i, old, new) == IF old = new THEN pd ELSE [pd EXCEPT ![p] = Append(@, Upd(i, new))]
+Enq(pd, p, i, old, new) == IF old = new \/ ("NoObserver" \in Dev /\ new.del = "none" /\ old.hd # {})
+                             THEN pd ELSE [pd EXCEPT ![p] = Append(@, Upd(i, new))]
 
 \* ---- the range-hash diff as an operator (exactness is C07's business) ----
 DNew(a, b) == {i \in Ids : a[i] = Absent /\ b[i] # Absent}
@@ -140,7 +146,7 @@ DeleteFinish(p, i) ==
 \* the deletion state is consulted now)
 ApplyTo(ix, p, u) ==
     IF u.del # "none" THEN [ix EXCEPT ![u.id] = Absent]
-    ELSE IF Tomb(p, u.id) \/ (u.hd = {} /\ u.id \notin Kv) THEN ix
+    ELSE IF (Tomb(p, u.id) /\ "NoExistsCheck" \notin Dev) \/ (u.hd = {} /\ u.id \notin Kv) THEN ix
     ELSE [ix EXCEPT ![u.id] = u.hd]
 IndexApply(p) ==
     /\ pend[p] # <<>>
@@ -187,8 +193,8 @@ RoundDiff(p) ==
     /\ UNCHANGED <<store, idx, phash, pend, online, tasks, budget, clean>>
 
 \* applyDiff: what is handed to the tree syncer (deletion state consulted now)
-ApplyMissing(p)  == rnd[p].new \ TombSet(p)
-ApplyExistAll(p) == (rnd[p].rem \cup rnd[p].chg) \ TombSet(p)
+ApplyMissing(p)  == IF "NoFilter" \in Dev THEN rnd[p].new ELSE rnd[p].new \ TombSet(p)
+ApplyExistAll(p) == ((IF "NoRemovedPush" \in Dev THEN {} ELSE rnd[p].rem) \cup rnd[p].chg) \ TombSet(p)
 ApplyExisting(p) == ApplyExistAll(p) \ Special          \* acl / key-value ids go to their own syncers
 Jobs(p) == LET q == rnd[p].cur IN
        {[f |-> p, t |-> q, i |-> i, k |-> "missing"]  : i \in ApplyMissing(p)}
